@@ -243,6 +243,62 @@ impl World {
                 };
                 self.out.push(format!("{}={}", if max.is_some() { "rp" } else { "r" }, s));
             }
+            "recvw" => {
+                // waker-respecting recv: poll once; if parked, deliver the bytes and re-poll ONLY when the
+                // waker handed to the latest poll has been woken.  `r=lost-wakeup` = data arrived, nobody was told.
+                let is_router = matches!(self.sock, Some(AnySock::Router(_)));
+                let d = bytes_tok(toks[2]);
+                let mut sock = self.sock.take().expect("socket gone");
+                let mut fed = false;
+                let res: Option<Option<ZmqResult<ZmqMessage>>> = {
+                    match sock.recv() {
+                        None => None,
+                        Some(mut fut) => {
+                            let mut out = None;
+                            let mut polls = 0usize;
+                            loop {
+                                let (cw, w) = count_waker();
+                                let before = cw.0.load(std::sync::atomic::Ordering::SeqCst);
+                                let mut cx = Context::from_waker(&w);
+                                polls += 1;
+                                if let Poll::Ready(v) = fut.as_mut().poll(&mut cx) {
+                                    out = Some(v);
+                                    break;
+                                }
+                                if !fed {
+                                    fed = true;
+                                    let i = self.conns.iter().position(|(n, _)| n == toks[1]).expect("unknown connection");
+                                    self.conns[i].1.r.data(&d);
+                                }
+                                let mut woken = false;
+                                for _ in 0..8 {
+                                    tokio::task::yield_now().await;
+                                    if cw.0.load(std::sync::atomic::Ordering::SeqCst) != before {
+                                        woken = true;
+                                        break;
+                                    }
+                                }
+                                if !woken || polls > 10_000 {
+                                    break;
+                                }
+                            }
+                            Some(out)
+                        }
+                    }
+                };
+                self.sock = Some(sock);
+                if !fed {
+                    let i = self.conns.iter().position(|(n, _)| n == toks[1]).expect("unknown connection");
+                    self.conns[i].1.r.data(&d);
+                }
+                let s = match res {
+                    None => "unsupported".to_string(),
+                    Some(None) => "lost-wakeup".to_string(),
+                    Some(Some(Ok(m))) => format!("ok:{}", self.msg_str(&m, is_router)),
+                    Some(Some(Err(e))) => format!("err:{}", err_class(&e)),
+                };
+                self.out.push(format!("r={}", s));
+            }
             "send" | "sendp" => {
                 let (max, mtok) = if toks[0] == "sendp" {
                     (Some(toks[1].parse::<usize>().unwrap()), toks[2])
